@@ -22,11 +22,15 @@ def zl(b):
 def nl(b):
     return zl(b) + '%N'
 
-def psf2(width, height):
-    return struct.pack('<8I', 0x864ab572, 0, 32, 0, 0, 0, height & 0xffffffff, width & 0xffffffff)
+def psf2(width, height, charsize=0):
+    """a PSF2 file without glyphs (length 0); charsize 0 as in the recorded witnesses of C02-sixel-font0, or = height (what fix fB wants)"""
+    return struct.pack('<8I', 0x864ab572, 0, 32, 0, 0, charsize & 0xffffffff, height & 0xffffffff, width & 0xffffffff)
 
-def font0(width, height):
-    return E + b'PCTerm:Font:0:' + base64.b64encode(psf2(width, height)) + E + b'\\'
+def font0(width, height, charsize=0):
+    return E + b'PCTerm:Font:0:' + base64.b64encode(psf2(width, height, charsize)) + E + b'\\'
+
+def font0_raw(data):
+    return E + b'PCTerm:Font:0:' + base64.b64encode(data) + E + b'\\'
 
 def hexmacro(pid, body):
     return E + b'P%d;0;1!z' % pid + body.hex().upper().encode() + E + b'\\'
@@ -45,7 +49,7 @@ def extra_ansi_tokens():
     t = list(tg.RESIZE)
     t += [x for x in c01.extra_tokens(0) if x[0] in ('DCS-macro', 'DCS-macro-hex', 'DCS-macro-bad', 'DCS-macro-clr', 'DCS-macro-csi', 'DCS-macro-nest',
                                                      'INV1', 'INV2', 'INV5', 'INV6', 'INV9', 'DCS-inv-inside', 'DCS-inv-nonum', 'DCS-esc', 'DCS-unknown',
-                                                     'OSC8-open', 'OSC8-close', 'OSC4', 'APS', 'ST', 'FONT-psf1', 'FONT-psf2', 'FONT-slot0', 'FONT-short',
+                                                     'OSC8-open', 'OSC8-close', 'OSC4', 'APS', 'ST', 'FONT-psf1', 'FONT-psf2', 'FONT-psf2-ok', 'FONT-psf2-w0', 'FONT-psf2-big', 'FONT-slot0', 'FONT-short',
                                                      'FONTSEL', 'FONTSEL-bad', 'DECFRA-ok', 'DECFRA-surrogate', 'T24', 'DEVATTR', 'REQ1', 'SSM-short')]
     return t
 
@@ -107,16 +111,38 @@ def directed():
         ('ans-sixel', 'ans', b'AB' + SIXEL, None),
         ('ans-two-sixels', 'ans', b'AB' + SIXEL + b'\r\n\r\n' + SIXEL2, None),
         ('ans-sixel-shadowed', 'ans', SIXEL + E + b'[H' + SIXEL2, None),
-        ('ans-font0-8x8-sixel', 'ans', font0(8, 8) + b'\n\nABC' + SIXEL2, None),
-        ('ans-font0-1x1-sixel', 'ans', font0(1, 1) + b'ABC' + SIXEL2, None),
+        ('ans-font0-8x8-sixel', 'ans', font0(8, 8, 8) + b'\n\nABC' + SIXEL2, None),          # font 0 IS replaced (charsize = height): cells of 8 x 8
+        ('ans-font0-1x1-sixel', 'ans', font0(1, 1, 1) + b'ABC' + SIXEL2, None),
+        ('ans-font0-8x32-sixel', 'ans', font0(8, 32, 32) + b'\n\nABC' + SIXEL2, None),
+        ('ans-font0-8x8-charsize0-sixel', 'ans', font0(8, 8) + b'\n\nABC' + SIXEL2, None),  # refused since fix fB (charsize 0 != height): font 0 stays 8 x 16
+        ('ans-font0-psf1-h8-sixel', 'ans', font0_raw(b'\x36\x04\x00\x08' + bytes(16)) + b'AB' + SIXEL, None),
+        ('ans-font0-raw-h32-sixel', 'ans', font0_raw(bytes([1]) * (32 * 256)) + b'AB' + SIXEL, None),
         ('avt-sixel', 'avt', b'AB' + SIXEL, None),
-        # Known 3: a sixel next to a degenerate font 0 (the oracle is what the file says: header fields of the PSF2 font, cursor, 4 x 6 pixels)
-        ('ans-font0-w0-sixel', 'ans', font0(0, 16) + SIXEL, (0, 16, [(0, 0, 4, 6)])),
-        ('ans-font0-h0-sixel', 'ans', font0(8, 0) + SIXEL, (8, 0, [(0, 0, 4, 6)])),
-        ('pcb-font0-00-sixel', 'pcb', font0(0, 0) + b'AB' + SIXEL, (0, 0, [(2, 0, 4, 6)])),
-        ('ans-font0-2^30-sixel', 'ans', font0(2 ** 30, 16) + b'AB' + SIXEL, (2 ** 30, 16, [(2, 0, 4, 6)])),
-        ('msg-font0-h2^30-sixel', 'msg', font0(8, 2 ** 30) + b'A\r\n\r\nB' + SIXEL, (8, 2 ** 30, [(1, 2, 4, 6)])),
-        ('ans-font0-minus1-sixel', 'ans', font0(2 ** 32 - 1, 2 ** 32 - 1) + SIXEL, (-1, -1, [(0, 0, 4, 6)])),
+        # the former Known 3 (C02-sixel-font0, fixed by fix fB): a sixel next to a `CTerm:Font:0:` string with a degenerate font.  The loaders
+        # refuse the font, font 0 stays the default one and the file LOADS (before the fix: division by zero / overflow / capacity overflow;
+        # the oracle was "what the file says").  Now the oracle is read from the observation like for every other file: both sides must load.
+        ('ans-font0-w0-sixel', 'ans', font0(0, 16) + SIXEL, None),
+        ('ans-font0-h0-sixel', 'ans', font0(8, 0) + SIXEL, None),
+        ('pcb-font0-00-sixel', 'pcb', font0(0, 0) + b'AB' + SIXEL, None),
+        ('ans-font0-2^30-sixel', 'ans', font0(2 ** 30, 16) + b'AB' + SIXEL, None),
+        ('msg-font0-h2^30-sixel', 'msg', font0(8, 2 ** 30) + b'A\r\n\r\nB' + SIXEL, None),
+        ('ans-font0-minus1-sixel', 'ans', font0(2 ** 32 - 1, 2 ** 32 - 1) + SIXEL, None),
+        ('avt-font0-w0-sixel', 'avt', font0(0, 16) + SIXEL, None),
+        ('avt-font0-2^30-sixel', 'avt', font0(2 ** 30, 16) + b'AB' + SIXEL, None),
+        ('avt-font0-minus1-sixel', 'avt', font0(2 ** 32 - 1, 2 ** 32 - 1) + SIXEL, None),
+        ('pcb-font0-h0-sixel', 'pcb', font0(8, 0) + SIXEL, None),
+        ('pcb-font0-h2^30-sixel', 'pcb', font0(8, 2 ** 30) + b'A\r\n\r\nB' + SIXEL, None),
+        ('pcb-font0-minus1-sixel', 'pcb', font0(2 ** 32 - 1, 2 ** 32 - 1) + SIXEL, None),
+        # the same sizes with charsize = height (only the size check can refuse them), width 9, height 33, a PSF1 font with charsize 0 / 33,
+        # raw data of 33 rows
+        ('ans-font0-w0-cs-sixel', 'ans', font0(0, 16, 16) + SIXEL, None),
+        ('ans-font0-w9-sixel', 'ans', font0(9, 16, 16) + b'AB' + SIXEL, None),
+        ('ans-font0-h33-sixel', 'ans', font0(8, 33, 33) + b'A\r\nB' + SIXEL, None),
+        ('ans-font0-2^31-cs-sixel', 'ans', font0(2 ** 31, 2 ** 31, 2 ** 31) + b'AB' + SIXEL, None),
+        ('ans-font0-psf1-h0-sixel', 'ans', font0_raw(b'\x36\x04\x00\x00') + SIXEL, None),
+        ('avt-font0-psf1-h0-sixel', 'avt', font0_raw(b'\x36\x04\x00\x00' + bytes(7)) + b'AB' + SIXEL, None),
+        ('ans-font0-psf1-h33-sixel', 'ans', font0_raw(b'\x36\x04\x00\x21' + bytes(66)) + b'A\r\nB' + SIXEL, None),
+        ('ans-font0-raw-h33-sixel', 'ans', font0_raw(bytes(33 * 256)) + b'A\r\nB' + SIXEL, None),
         ('ans-font0-w0-no-sixel', 'ans', font0(0, 0) + b'AB', None),
         ('ans-font0-2^30-sixel-origin', 'ans', font0(2 ** 30, 2 ** 30) + SIXEL, None),
         # the former Known 2 (repaired by the nesting limit MAX_MACRO_NESTING, fix 2513579): the macro bomb through every loader with an ANSI parser inside
